@@ -8,7 +8,7 @@
                                 with its helpers hyphenHashLookup/Insert, hyphenGetNewState,
                                 hyphenAddTrans: states = prefixes in insertion order,
                                 transitions appended, pattern strings without leading
-                                zeros, fallback states, 16-bit state numbers.
+                                zeros, fallback states, 32-bit state numbers.
   * `hyphenateWalk`             hyphenateWord (lou_translateString.c:1456-1528): the walk
                                 over ".word." with the fallback loop and the `limit` clamp.
   * `louHyphenate…`             lou_hyphenate (lou_translateString.c:4074-4156): text mode
@@ -97,7 +97,8 @@ def specDigits (pats : List Pat) (lower : Nat → Nat) (w : List Nat) : List Nat
 
 /-! ## compileHyphenation -/
 
-def DEFAULTSTATE : Nat := 0xffff
+/-- `#define DEFAULTSTATE 0xffffffff`: "not found" of hyphenHashLookup and the fallback of state 0 -/
+def DEFAULTSTATE : Nat := 0xffffffff
 
 /-- `HyphenationState` (internal.h:388-394); `pat = none` ⇔ `hyphenPattern == 0`;
     `trans` in array order (`numTrans = trans.length`) -/
@@ -128,9 +129,9 @@ def newState (cs : CState) (key : List Nat) : CState × Nat :=
 def modifyAt (a : Array HState) (i : Nat) (f : HState → HState) : Array HState :=
   if h : i < a.size then a.set i (f a[i]) else a
 
-/-- hyphenAddTrans (2526-2538); `newState` is a `widechar` field: 16 bits are stored -/
+/-- hyphenAddTrans (2526-2538); `newState` is an `unsigned int` field -/
 def addTrans (cs : CState) (s1 s2 ch : Nat) : CState :=
-  { cs with states := modifyAt cs.states s1 (fun st => { st with trans := st.trans ++ [(ch, s2 % 65536)] }) }
+  { cs with states := modifyAt cs.states s1 (fun st => { st with trans := st.trans ++ [(ch, s2 % 4294967296)] }) }
 
 def setPat (cs : CState) (s : Nat) (p : List Nat) : CState :=
   { cs with states := modifyAt cs.states s (fun st => { st with pat := some p }) }
@@ -167,10 +168,10 @@ def fbSearch (hash : List (List Nat × Nat)) : List Nat → Nat
 
 /-- 2617-2628.  The C visits the entries bucket by bucket, here they are visited in list
     order; every entry writes only the slot of its own state, so the order is immaterial.
-    `fallbackState` is a `widechar` field. -/
+    `fallbackState` is an `unsigned int` field. -/
 def setFallbacks (cs : CState) : Array HState :=
   cs.hash.foldl (fun st e =>
-    if e.2 ≠ 0 then modifyAt st e.2 (fun s => { s with fallback := fbSearch cs.hash e.1.tail % 65536 }) else st)
+    if e.2 ≠ 0 then modifyAt st e.2 (fun s => { s with fallback := fbSearch cs.hash e.1.tail % 4294967296 }) else st)
     cs.states
 
 def initC : CState := ⟨#[{}], []⟩
